@@ -12,7 +12,7 @@ TECH = ('solver-based checking of the real code: bounded symbolic execution of /
 CLAIMED = {
     'C08': ('Every obligation (ring laws of SeqNum, diff/ordering over half the ring, BitField.insert/contains '
             'against a ghost receive set for widths 8..256, ack/ack_bits naming through the real header codec and '
-            '_handle_ack_bits) is an SMT query over the whole value domain on every execution path of the real source; '
+            '_handle_ack_bits, the _recv_datagram gate accepting a genuine datagram up to the window edge exactly when it was not received before) is an SMT query over the whole value domain on every execution path of the real source; '
             'one inductive window step from an arbitrary state covers insertion histories of any length.',
             'Trusted: the sx engine (proxy semantics for int/bit operations, validated by running the repo tests '
             'concretely through it), z3, the struct model. Bounds: values are the full 16-bit domain, offsets '
@@ -43,7 +43,7 @@ CLAIMED = {
             'independently written RFC 6455 layout for every flag combination, opcode, mask bit, masking key and payload '
             'length 0..2^63-1, and parsed back by the real readHeader/readDataHeader; unmasking is proven per byte; '
             'k masked client frames cut at symbolic positions are fed through the real WebSocketTemporaryHandler and '
-            'proven to be delivered once each, in order, unmasked, without exceptions.',
+            'proven to be delivered once each, in order, unmasked, without exceptions; frames with a 16-bit or 64-bit extended length cut inside their header neither raise nor deliver early.',
             'Trusted: sx engine, struct model. Bounds: header codec unbounded in the length value; masking payload <= 8 '
             '(thorough 12) symbolic bytes; segmentation k <= 2 frames, payload <= 2 bytes, <= 1 cut (thorough k <= 3, <= 3 bytes, '
             '<= 2 cuts) - payload content is irrelevant to framing, only boundaries matter. Continuation frames are not '
@@ -130,7 +130,7 @@ CLAIMED = {
             'reassemble to the payload with a retry obligation; the queue drains one datagram per tick for every length and MTU '
             '(no size is left unsent); a guaranteed message is always queued, in flight or acknowledged and a timeout re-queues the '
             'identical (seq, type, payload); every datagram older than the message timeout is resolved by the next tick (client and '
-            'server variants) and none earlier; a genuine fresh datagram delivers all its messages through the real codec; a bounded '
+            'server variants) and none earlier; a genuine fresh datagram delivers all its messages through the real codec, and a message that was not received before is delivered at any ring offset from an arbitrary message window (late retransmissions); a bounded '
             'two-endpoint scenario with symbolic losses in both directions followed by a healed network delivers exactly once. '
             'The lemma "an incomplete fragment context is kept while retransmission is possible" holds only up to the context age '
             'limit: known finding F6c (open), its complement is proven.',
@@ -157,7 +157,7 @@ CLAIMED = {
             'state (windows, liveness clock, pending tables, queues, key, status) unchanged; a fresh datagram carrying an already '
             'received message seq (APP or APP_FRAGMENT, any offset) is proven not to deliver or store it again, except in the open '
             'known finding F4b (more than 256 newer messages in between), whose complement is proven; a bounded two-endpoint scenario '
-            'delivers three recorded datagrams (any retry modes, piggy-backed retransmissions) in every order with repeats. '
+            'delivers three recorded datagrams (any retry modes, piggy-backed retransmissions) in every order with repeats; both timeout re-queue paths (RetrySender, FragmentSender.callback) are proven to re-queue the identical message under its original message sequence number. '
             'Violations are replayed through the public API (deliver, d newer datagrams, deliver again).',
             'Trusted: sx engine, ideal AEAD, C08 (window exactness inside the window). Retransmission identity (same seq/type/payload) '
             'is C05 L5.4 / C06 L6.4. Bounds: one pending entry in the step lemmas; scenario of 3 datagrams and <= 4 (thorough 6) deliveries.',
@@ -208,7 +208,7 @@ CLAIMED = {
             'through the real code on both sides (real serializers, codec, key derivation calls): both ends hold the same 16-byte key '
             'term and the same token, the challenge response is sealed under that key, exactly one connect event. Promotion of a temp '
             'connection is proven equivalent to: CHALLENGE_RESP type, sealed under this connection\'s key, carrying the issued token; '
-            'other pending handshakes untouched; connect at most once.',
+            'other pending handshakes untouched; connect at most once. Two hellos delivered in one connect attempt (forged then forged or genuine, same or new datagram) are judged independently: a refused hello does not weaken the pin.',
             'Assumed, not shown: hardness of ECDSA/ECDH/HKDF/AES-GCM (ideal models, listed in the evidence); distinct keys have distinct '
             'encodings. The TOFU mode (no pinned key) is excluded by the statement. Reordering/duplication/loss of handshake datagrams '
             'at the server gate is part of C10.',
